@@ -20,13 +20,21 @@ chk.extra['rule'] = ('systems of 1-3 molecules with 1-2 chains each (shared inpu
                      'through the real GoPipeline; contact lists mix symmetric, one-directional, absent-residue, '
                      'absent-chain and self entries; cut-offs are often placed exactly on an occurring distance; '
                      'a case is non-trivial if it has >= 1 one-directional and >= 1 symmetric contact between '
-                     'present residues; histories apply ONE GoProcessorPipeline / VirtualSiteCreator / '
-                     'ComputeStructuralGoBias object to 2-3 systems (or one application to an unmerged system) and '
-                     'compare each result with a fresh processor and with the model (non-trivial: >= 1 Go pair emitted); '
-                     'contact-map files mix selected, unselected, comment, short/long, malformed-integer lines and '
-                     'all newline conventions (non-trivial: accepted file with noise lines); every third contact list '
-                     'reaches the pipeline through the real read_go_map, every fourth result is written with '
-                     'write_nonbond_params/write_atomtypes and the files are checked; distinct = distinct protocol line')
+                     'present residues; residues with two backbone beads whose sub-graph is iterated in set order are '
+                     'compared with the model given the observed order; histories apply ONE GoProcessorPipeline / '
+                     'VirtualSiteCreator / ComputeStructuralGoBias object to 2-3 systems (or one application to an '
+                     'unmerged system, sometimes with an atom-less molecule) and compare each result with a fresh '
+                     'processor and with the model (non-trivial: >= 1 Go pair emitted); contact-map files mix selected, '
+                     'unselected, comment, short/long, malformed-integer lines and all newline conventions (non-trivial: '
+                     'accepted file with noise lines); every third contact list reaches the pipeline through the real '
+                     'read_go_map; every third result is written with write_nonbond_params/write_atomtypes and the two '
+                     'files are compared byte for byte with model(pipeline)+model(writers), sigma/epsilon of every pair '
+                     'checked exactly (non-trivial: >= 1 pair); generated tables (conditionals, groups, comments of all '
+                     'shapes, self/3-atom/empty atom tuples, None numbers, both ifdef+ifndef, C6C12 on exact dyadics, '
+                     'rounding ties at 8 decimals) go through the two writers and through write_gmx_topology with varying '
+                     'itp_paths (non-trivial: >= 2 blocks / both files); generated all_contacts lists go through '
+                     '_write_contacts and the written file through read_go_map (non-trivial: >= 1 selected contact); '
+                     'distinct = distinct protocol line')
 chk.lean(['VermouthProps.C18', 'VermouthProps.C18_Reuse', 'VermouthProps.C18_Files', 'VermouthProps.C18_MapWrite',
           'VermouthProps.C18_Sigma', 'VermouthProps.C18_Order'], 'driver_c18')
 
@@ -52,6 +60,9 @@ quiet_vermouth_logs()
 chk.trusted.append('harness/c18.py: system builder, canonicaliser of nodes/interactions/nonbond_params, property oracle '
                    '(networkx shortest paths, Fractions); exactness of float sqrt/comparison on integer lattices with '
                    'dyadic cut-offs')
+chk.trusted.append('harness/c18.py (extension): fractions.Fraction(x) as the exact value of a Python number; the independent '
+                   'parameter-file parser and its block/group bookkeeping; scipy euclidean(...)*10 re-evaluated for the distance '
+                   'column of the written contact map; str() of mass/charge')
 KNOWN_IDS = {k['id'] for k in chk.known if k.get('status') == 'known'}
 FIXED_IDS = {k['id'] for k in chk.known if k.get('status') == 'fixed'}
 
@@ -210,6 +221,8 @@ def run_real(spec, runner=None, via_file=False):
         status = 'exit'
     except KeyError:
         status = 'keyerror'
+    except (ValueError, TypeError, IndexError, AttributeError) as exc:
+        status = 'raised-' + type(exc).__name__
     mol = system.molecules[0]
     nb = system.gmx_topology_params['nonbond_params']
     impl, new, vsn, excl = canon(mol, pre, pre_vsn, pre_excl, nb, status)
@@ -292,7 +305,9 @@ def oracle(spec, obs):
     contacts = obs['contacts']
     if obs['status'] != 'ok':
         flags.add('aborted')
-        if obs['status'] == 'keyerror':
+        if obs['status'].startswith('raised-'):
+            errs.append('the Go pipeline stopped with %s' % obs['status'][7:])
+        elif obs['status'] == 'keyerror':
             errs.append('KeyError: no Go virtual-site type found for a listed residue')
         else:
             # sys.exit(1) is only acceptable when a listed, present residue has no backbone particle
@@ -536,9 +551,12 @@ def flush_writer():
     DeferredFileWriter().write()
 
 
+WDIR = os.path.join(TMP, 'writers')
+os.makedirs(WDIR, exist_ok=True)
+
+
 def call_writer(fn, system, c6, fname):
-    d = tempfile.mkdtemp(dir=TMP)
-    path = os.path.join(d, fname)
+    path = os.path.join(WDIR, fname)
     err = 'ok'
     try:
         fn(system, path, C6C12=c6)
@@ -547,7 +565,7 @@ def call_writer(fn, system, c6, fname):
     flush_writer()
     with open(path, newline='') as f:
         text = f.read()
-    shutil.rmtree(d)
+    os.remove(path)
     return text, err
 
 
@@ -627,36 +645,41 @@ def table_oracle(kind, entries, c6, text, err):
         errs.append('%d data lines for %d table entries' % (len(rows), len(want)))
     exchanged = 0
     used = [False] * len(rows)
+
+    def numbers_fit(toks, sig, eps):
+        """-> (fits, carries the exchanged numbers instead of the Lennard-Jones ones)"""
+        try:
+            n1, n2 = float(toks[-2]), float(toks[-1])
+        except ValueError:
+            return False, False
+        if not c6:
+            return abs(n1 - sig) <= 5.000001e-9 and abs(n2 - eps) <= 5.000001e-9, False
+        ok = abs(n1 - 4 * eps * sig ** 6) <= 5.000001e-9 * max(1, abs(n1)) and \
+            abs(n2 - 4 * eps * sig ** 12) <= 5.000001e-9 * max(1, abs(n2))
+        swapped = toks[-2] == '%.8F' % (4 * sig * eps ** 6) and toks[-1] == '%.8F' % (4 * sig * eps ** 12)
+        return ok or swapped, (not ok) and swapped
+
     for head, sig, eps, cond, group in want:
-        hit = None
+        want_stack = (cond,) if cond else ()
+        cands = []
         for i, (toks, com, stack, grp) in enumerate(rows):
             if not used[i] and toks[:len(head)] == head and len(toks) == len(head) + 2:
-                try:
-                    n1, n2 = float(toks[-2]), float(toks[-1])
-                except ValueError:
-                    continue
-                if c6:
-                    ok = abs(n1 - 4 * eps * sig ** 6) <= 5.000001e-9 * max(1, abs(n1)) and \
-                        abs(n2 - 4 * eps * sig ** 12) <= 5.000001e-9 * max(1, abs(n2))
-                    swapped = toks[-2] == '%.8F' % (4 * sig * eps ** 6) and toks[-1] == '%.8F' % (4 * sig * eps ** 12)
-                    if not ok and not swapped:
-                        continue
-                else:
-                    ok, swapped = abs(n1 - sig) <= 5.000001e-9 and abs(n2 - eps) <= 5.000001e-9, False
-                    if not ok:
-                        continue
-                hit = i
-                used[i] = True
-                if not ok and swapped:
-                    exchanged += 1
-                want_stack = (cond,) if cond else ()
-                if stack[-1:] != want_stack[-1:] or (not cond and stack):
-                    errs.append('entry %r is written inside %r, its meta asks for %r' % (head, stack, cond))
-                elif len(stack) > 1:
-                    pass                  # nested in a block that was never closed: counted below
-                if grp != group:
-                    errs.append('entry %r follows group line %r, its meta asks for %r' % (head, grp, group))
-                break
+                fits, swapped = numbers_fit(toks, sig, eps)
+                if fits:
+                    placed = stack[-1:] == want_stack[-1:] and not (not cond and stack) and grp == group
+                    cands.append((not placed, i, swapped))
+        hit = None
+        if cands:
+            # identical lines may stand for entries of different blocks: take the one in the right place first
+            _, hit, swapped = min(cands)
+            toks, com, stack, grp = rows[hit]
+            used[hit] = True
+            if swapped:
+                exchanged += 1
+            if stack[-1:] != want_stack[-1:] or (not cond and stack):
+                errs.append('entry %r is written inside %r, its meta asks for %r' % (head, stack, cond))
+            if grp != group:
+                errs.append('entry %r follows group line %r, its meta asks for %r' % (head, grp, group))
         if hit is None:
             errs.append('table entry %r (sigma %r epsilon %r) is not written' % (head, sig, eps))
     finding = None
@@ -870,8 +893,12 @@ def run_unmerged(specs):
         status = 'exit'
     except KeyError:
         status = 'keyerror'
+    except (ValueError, TypeError, IndexError, AttributeError) as exc:
+        status = 'raised-' + type(exc).__name__
     nb = list(system.gmx_topology_params['nonbond_params'])
     impls, errs = [], []
+    if status.startswith('raised-'):
+        errs.append('VirtualSiteCreator / ComputeStructuralGoBias stopped with %s on an unmerged system' % status[7:])
     for m, pre, sp in zip(system.molecules, pres, specs):
         n_ex = len(m.interactions.get('exclusions', []))
         impl, _, _, _ = canon(m, pre, 0, 0, nb[:n_ex], status)
@@ -1160,7 +1187,7 @@ for n_, (cid, sp) in enumerate(specs):
         # prefix-matching types: the observed order is handed to the model (lean/VermouthModel/C18_Order.lean)
         ln = line('goord') + ln[len(enc('go')):] + ' ' + enc(residue_orders(obs))
     obs['writer_errs'] = obs['files'] = None
-    if n_ % 2 == 0 and obs['status'] == 'ok' and not obs['order_sensitive']:
+    if n_ % 3 == 1 and obs['status'] == 'ok' and not obs['order_sensitive']:
         obs['files'] = go_files(ln, sp, obs)
         obs['writer_errs'] = writer_oracle(obs, obs['files'][2], obs['files'][3])
     lines.append(ln)
@@ -1282,7 +1309,7 @@ for i, ((t, want), ln, im, mo) in enumerate(zip(texts, ml, mimpl, mmodels)):
 # ---- generated parameter tables through the two writers -----------------------------------------------------
 rng = chk.rng('tables')
 tl, tmeta = [], []
-for i in range(12000 if chk.thorough else 1200):
+for i in range(12000 if chk.thorough else 900):
     system, kind, c6 = gen_tables(rng)
     key = 'nonbond_params' if kind == 'nb' else 'atomtypes'
     entries = list(system.gmx_topology_params[key])
@@ -1308,7 +1335,7 @@ for ln, mo, (i, kind, c6, entries, text, err) in zip(tl, tmodels, tmeta):
 # ---- write_gmx_topology: which parameter files, where ---------------------------------------------------------
 rng = chk.rng('topology')
 pl_, pmeta = [], []
-for i in range(1500 if chk.thorough else 150):
+for i in range(1500 if chk.thorough else 120):
     system, kind, c6 = gen_tables(rng)
     other, _, _ = gen_tables(rng)
     for key in ('atomtypes', 'nonbond_params'):
@@ -1378,7 +1405,7 @@ MAP_EXTRA = []          # columns after `Count`: the code writes none (17 column
 RESN = ['ALA', 'GLY', 'LYS', 'TRP', 'CYS', 'A', 'DA', 'HSDX', 'res0']
 rng = chk.rng('mapwrite')
 wl, wmeta = [], []
-for i in range(4000 if chk.thorough else 400):
+for i in range(4000 if chk.thorough else 300):
     nres = rng.randint(1, 7)
     G = nx.Graph()
     ca_pos = []
